@@ -12,6 +12,7 @@ Kravatte over Keccak-p[1600,6] and the key block `k ‖ 1 ‖ 0*` is the corresp
 -/
 import HopModel.Proofs.Sanse
 import HopModel.Proofs.Kravatte
+import HopModel.Proofs.Keccak
 import HopModel.Generated.Consts
 namespace Sanse
 
@@ -161,14 +162,17 @@ theorem C12_key_pad_length (k : List UInt8) (h : k.length < 200) : (pad k).lengt
   pad_length k h
 
 open Kravatte in
-/-- hence, with a block-to-mask map that is injective (a permutation applied to the lane packing
-of the 200 bytes — `hmask` is that hypothesis, visible), different keys have different masks -/
-theorem C12_key_sensitivity (f : Keccak.State → Keccak.State)
-    (hmask : ∀ a b : List UInt8, a.length = 200 → b.length = 200 →
-      f (Keccak.ofBytes a) = f (Keccak.ofBytes b) → a = b)
+/-- hence, for an injective permutation `f` (hypothesis, visible; Keccak-p is a bijection, which is
+not proved here), different keys have different masks `f (lanes (k ‖ 1 ‖ 0*))` — the lane packing
+is proved injective (`Keccak.ofBytes_injective`).  This is what failed in the Go code before the
+repair of `snp.StateSetByte` (F19): there the block was not `k ‖ 1 ‖ 0*`. -/
+theorem C12_key_sensitivity (f : Keccak.State → Keccak.State) (hf : ∀ s t, f s = f t → s = t)
     (k₁ k₂ : List UInt8) (h₁ : k₁.length < 200) (h₂ : k₂.length < 200)
-    (h : maskOf f k₁ = maskOf f k₂) : k₁ = k₂ :=
-  pad_injective k₁ k₂ h₁ h₂ (hmask _ _ (pad_length k₁ h₁) (pad_length k₂ h₂) h)
+    (h : maskOf f k₁ = maskOf f k₂) : k₁ = k₂ := by
+  have hp := hf _ _ h
+  have hl₁ := pad_length k₁ h₁
+  have hl₂ := pad_length k₂ h₂
+  exact pad_injective k₁ k₂ h₁ h₂ (Keccak.ofBytes_injective _ _ (by rw [hl₁, hl₂]) (by omega) hp)
 
 /-! ### the Kravatte instance meets the hypothesis -/
 
